@@ -1,30 +1,765 @@
+//! C16 — decoding and verifying untrusted bytes is total: errors, never crashes.
+//!
+//! Valid encodings of every verifier-facing object are mutated (every truncation length, every
+//! header byte x 256 values, crafted invalid points / scalars in every body position, bit flips,
+//! splices, appended bytes, cross-format reads, hostile bincode length prefixes, the IR
+//! instruction grammar with wrong arities and huge parameters) and decoded — and, when a key
+//! decodes, used to verify — inside child processes that run under an address-space limit. A
+//! panic, an abort, a signal, an allocation failure or a time-out of the child is a violation
+//! for the mutation it was working on; so is an accepted non-canonical encoding.
+
+mod child;
+mod ir;
+mod mutate;
 mod subjects;
-use std::time::Instant;
+
+use std::{
+    collections::{BTreeMap, BTreeSet},
+    io::{BufRead, BufReader, Read},
+    os::unix::process::ExitStatusExt,
+    path::PathBuf,
+    process::{Command, Stdio},
+    sync::{mpsc, Mutex},
+    time::Duration,
+};
+
+use mutate::*;
+use serde_json::json;
 use subjects::*;
-use midnight_zk_stdlib::MidnightVK;
-fn main() {
-    vcore::pin_global_rayon(1);
-    let t = Instant::now();
-    let b = build_bundle(0, true).unwrap();
-    println!("bundle built in {:?}", t.elapsed());
-    for (k, v) in &b { println!("{k}: {} bytes", v.len()); }
-    for tag in ["A", "B"] {
-        for f in [Fmt::P, Fmt::R] {
-            let bytes = &b[&format!("mvk:{tag}:{}", f.tag())];
-            let t = Instant::now();
-            for _ in 0..10 { MidnightVK::read(&mut &bytes[..], f.sf()).unwrap(); }
-            println!("read mvk {tag} {}: {:?}/10", f.name(), t.elapsed());
-            let l = mvk_layout(bytes, f).unwrap();
-            println!("  layout fields {}", l.len());
+use vcore::{CaseOut, Ctx, Level, Viol};
+
+#[derive(Clone, Debug)]
+enum MutRes {
+    Done { nontrivial: bool, toks: Vec<String> },
+    Crash { kind: String, detail: String },
+}
+
+struct Sandbox {
+    exe: PathBuf,
+    bundle: PathBuf,
+    seed: u64,
+    tier: &'static str,
+}
+
+enum Msg {
+    Line(String),
+    Eof,
+}
+
+impl Sandbox {
+    /// Runs batch `batch` of `subject` (n mutations) in child processes; a child that dies is
+    /// charged to the mutation it had announced and a new child continues after it.
+    fn run(&self, subject: &str, batch: usize, n: usize, cap: Duration, parts: usize, confirm: bool) -> Result<(Vec<MutRes>, u64), String> {
+        let parts = parts.clamp(1, n.max(1));
+        if parts == 1 {
+            return self.run_range(subject, batch, 0, n, n, cap, confirm);
         }
-        let l = proof_layout(&b[&format!("proof:{tag}")]).unwrap();
-        println!("proof {tag}: {} elements, {} points", l.len(), l.iter().filter(|f| f.kind == Kind::G1c).count());
+        let bounds: Vec<(usize, usize)> = (0..parts).map(|p| (p * n / parts, (p + 1) * n / parts)).collect();
+        let rs: Vec<Result<(Vec<MutRes>, u64), String>> = std::thread::scope(|sc| {
+            let hs: Vec<_> = bounds
+                .iter()
+                .map(|&(lo, hi)| sc.spawn(move || self.run_range(subject, batch, lo, hi, n, cap, confirm)))
+                .collect();
+            hs.into_iter().map(|h| h.join().unwrap_or_else(|_| Err("sandbox thread panicked".into()))).collect()
+        });
+        let mut all = vec![];
+        let mut spawned = 0;
+        for r in rs {
+            let (v, s) = r?;
+            all.extend(v);
+            spawned += s;
+        }
+        Ok((all, spawned))
     }
-    for w in 0..2 {
-        let (m, _) = zkir_manual(&zkir_program(w));
-        println!("zkir {w}: manual==lib {} len {}", m == b[&format!("zkir:bin:{w}")], m.len());
-        let s: &'static str = Box::leak(zkir_json(w).into_boxed_str());
-        let r = midnight_zkir::ZkirRelation::read(s).unwrap();
-        println!("  json==bin {}", zkir_encode(&r) == b[&format!("zkir:bin:{w}")]);
+
+    /// Mutations lo..hi of a batch of n.
+    fn run_range(&self, subject: &str, batch: usize, lo: usize, hi: usize, n: usize, cap: Duration, confirm: bool) -> Result<(Vec<MutRes>, u64), String> {
+        let mut results: Vec<Option<MutRes>> = vec![None; n];
+        let mut from = lo;
+        let mut spawned = 0u64;
+        while from < hi {
+            spawned += 1;
+            let mut ch = Command::new(&self.exe)
+                .arg("--child")
+                .arg(&self.bundle)
+                .arg(self.seed.to_string())
+                .arg(self.tier)
+                .arg(subject)
+                .arg(batch.to_string())
+                .arg(from.to_string())
+                .arg(hi.to_string())
+                .stdin(Stdio::null())
+                .stdout(Stdio::piped())
+                .stderr(Stdio::piped())
+                .spawn()
+                .map_err(|e| format!("cannot spawn child: {e}"))?;
+            let stdout = ch.stdout.take().unwrap();
+            let mut stderr = ch.stderr.take().unwrap();
+            let (tx, rx) = mpsc::channel::<Msg>();
+            let reader = std::thread::spawn(move || {
+                for l in BufReader::new(stdout).lines() {
+                    match l {
+                        Ok(l) => {
+                            if tx.send(Msg::Line(l)).is_err() {
+                                return;
+                            }
+                        }
+                        Err(_) => break,
+                    }
+                }
+                let _ = tx.send(Msg::Eof);
+            });
+            let errt = std::thread::spawn(move || {
+                let mut buf = vec![];
+                let mut chunk = [0u8; 4096];
+                while let Ok(k) = stderr.read(&mut chunk) {
+                    if k == 0 {
+                        break;
+                    }
+                    if buf.len() < 16384 {
+                        buf.extend_from_slice(&chunk[..k]);
+                    }
+                }
+                String::from_utf8_lossy(&buf).to_string()
+            });
+            let mut current: Option<usize> = None;
+            let mut finished = false;
+            let mut timed_out = false;
+            let mut ready = false;
+            loop {
+                match rx.recv_timeout(cap) {
+                    Ok(Msg::Line(l)) => {
+                        if let Some(r) = l.strip_prefix("start ") {
+                            current = r.trim().parse().ok();
+                        } else if let Some(r) = l.strip_prefix("r\t") {
+                            let mut it = r.split('\t');
+                            let i: usize = it.next().and_then(|s| s.parse().ok()).ok_or("bad result line")?;
+                            let nontrivial = it.next() == Some("1");
+                            let toks: Vec<String> = it.filter(|s| !s.is_empty()).map(|s| s.to_string()).collect();
+                            if i >= n {
+                                return Err(format!("child reported index {i} of {n}"));
+                            }
+                            results[i] = Some(MutRes::Done { nontrivial, toks });
+                            current = None;
+                        } else if let Some(r) = l.strip_prefix("ready ") {
+                            ready = true;
+                            if r.trim().parse::<usize>().ok() != Some(n) {
+                                let _ = ch.kill();
+                                let _ = ch.wait();
+                                return Err(format!("child disagrees on the batch size: {r} vs {n}"));
+                            }
+                        } else if l == "done" {
+                            finished = true;
+                        }
+                    }
+                    Ok(Msg::Eof) => break,
+                    Err(_) => {
+                        timed_out = true;
+                        let _ = ch.kill();
+                        break;
+                    }
+                }
+            }
+            let status = ch.wait().map_err(|e| format!("wait: {e}"))?;
+            let _ = reader.join();
+            let err_text = errt.join().unwrap_or_default();
+            if finished && status.success() {
+                break;
+            }
+            let kind = if timed_out {
+                format!("timeout(>{}s)", cap.as_secs())
+            } else if let Some(s) = status.signal() {
+                if err_text.contains("memory allocation of") {
+                    "alloc".to_string()
+                } else if s == libc::SIGABRT {
+                    "abort".to_string()
+                } else {
+                    format!("signal-{s}")
+                }
+            } else {
+                format!("exit-{}", status.code().unwrap_or(-1))
+            };
+            // a time-out under a loaded machine is re-examined alone with a five-fold cap
+            if timed_out && confirm {
+                if let Some(i) = current {
+                    if ready {
+                        let (one, sp) = self.run_range(subject, batch, i, i + 1, n, cap * 5, false)?;
+                        spawned += sp;
+                        results[i] = one.into_iter().next();
+                        from = i + 1;
+                        continue;
+                    }
+                }
+            }
+            match current {
+                Some(i) if ready => {
+                    let detail: String = err_text.lines().filter(|l| !l.starts_with("MACHINERY-ERROR")).take(3).collect::<Vec<_>>().join(" | ");
+                    results[i] = Some(MutRes::Crash { kind, detail });
+                    from = i + 1;
+                }
+                _ => {
+                    return Err(format!(
+                        "child for {subject} batch {batch} died outside a mutation ({kind}): {}",
+                        err_text.chars().take(400).collect::<String>()
+                    ))
+                }
+            }
+        }
+        let mut out = vec![];
+        for (i, r) in results.into_iter().enumerate().take(hi).skip(lo) {
+            out.push(r.ok_or(format!("no result for mutation {i} of {subject} batch {batch}"))?);
+        }
+        Ok((out, spawned))
     }
+}
+
+struct SubjectRt {
+    def: SubjectDef,
+    valid: Vec<u8>,
+    batches: Vec<Batch>,
+}
+
+/// Set of byte values as a key fragment, relative to the original value where that is what
+/// characterises the set.
+fn set_desc(vals: &BTreeSet<u8>, orig: u8) -> String {
+    let all_but: BTreeSet<u8> = (0..=255u8).filter(|v| *v != orig).collect();
+    if *vals == all_but {
+        return "!=orig".into();
+    }
+    let below: BTreeSet<u8> = (0..orig).collect();
+    let above: BTreeSet<u8> = all_but.iter().copied().filter(|v| *v > orig).collect();
+    if !below.is_empty() && *vals == below {
+        return "<orig".into();
+    }
+    if !above.is_empty() && *vals == above {
+        return ">orig".into();
+    }
+    literal_desc(vals)
+}
+
+/// `>=a`, `=a`, `=a..b,c..d`
+fn literal_desc(vals: &BTreeSet<u8>) -> String {
+    let mut ranges: Vec<(u8, u8)> = vec![];
+    for v in vals {
+        match ranges.last_mut() {
+            Some((_, b)) if *b as u16 + 1 == *v as u16 => *b = *v,
+            _ => ranges.push((*v, *v)),
+        }
+    }
+    if ranges.len() == 1 && ranges[0].1 == 255 && ranges[0].0 != 255 {
+        return format!(">={}", ranges[0].0);
+    }
+    let parts: Vec<String> =
+        ranges.iter().map(|(a, b)| if a == b { format!("{a}") } else { format!("{a}..{b}") }).collect();
+    format!("={}", parts.join(","))
+}
+
+fn stage_base(stage: &str) -> &str {
+    stage.trim_end_matches("-other-proof").trim_end_matches("-under-other-key")
+}
+
+fn finding_key(def: &SubjectDef, stage: &str, desc: &str, kind: &str) -> String {
+    let k = if stage == "decode" {
+        format!("{}:{desc}:{kind}", def.entry())
+    } else {
+        format!("{}:{}.{desc}:{kind}", stage_base(stage), def.object())
+    };
+    if def.reported_only {
+        format!("reported-only:{k}")
+    } else {
+        k
+    }
+}
+
+/// Is the set description of this field relative to the original value (counts and lengths) or
+/// absolute (sizes, flags, versions)?
+fn relative_field(field: &str) -> bool {
+    field.contains("count") || field.ends_with(".len")
+}
+
+/// Key fragment describing a non-sweep mutation: one fragment per way of breaking the input,
+/// coarse enough that one defect gets one key.
+fn mutation_desc(mu: &Mutation, site: &str) -> String {
+    let c = mu.class.as_str();
+    if let Some(rest) = c.strip_prefix("grammar:") {
+        return format!("grammar:{}", rest.split('/').next().unwrap_or(rest));
+    }
+    if c.starts_with("json:") {
+        return c.to_string();
+    }
+    if c.starts_with("length-prefix") || c == "non-minimal-varint" {
+        return "length-prefix".into();
+    }
+    if c.starts_with("parameter") {
+        return format!("{}:{c}", mu.field);
+    }
+    if c.starts_with("point<-") || c.starts_with("scalar<-") {
+        return format!("{}<-{}", mu.field, c.split_once("<-").map(|x| x.1).unwrap_or(c));
+    }
+    if c.starts_with("count-1") || c.starts_with("count=0") {
+        return format!("{}<orig", mu.field);
+    }
+    if c.starts_with("count+1") || c.starts_with("count=2^32-1") {
+        return format!("{}>orig", mu.field);
+    }
+    let fam = if c.starts_with("splice") {
+        "splice"
+    } else if c.starts_with("append") {
+        "append"
+    } else {
+        c
+    };
+    if site.is_empty() {
+        fam.to_string()
+    } else {
+        format!("{fam}@{site}")
+    }
+}
+
+fn family(class: &str) -> &str {
+    class.split(':').next().unwrap_or(class)
+}
+
+#[derive(Default)]
+struct Shared {
+    /// (finding key, case) -> (mutations, example)
+    reported_only: BTreeMap<(String, String), (u64, String)>,
+    /// informational observations: (what, case) -> count
+    info: BTreeMap<(String, String), u64>,
+}
+
+fn hex_head(b: &[u8]) -> String {
+    let h = vcore::hex(&b[..b.len().min(128)]);
+    if b.len() > 128 {
+        format!("{h}...({} bytes)", b.len())
+    } else {
+        h
+    }
+}
+
+fn main() {
+    let args: Vec<String> = std::env::args().collect();
+    if args.get(1).map(|s| s.as_str()) == Some("--child") {
+        child::child_main(&args[2..]);
+    }
+    if args.get(1).map(|s| s.as_str()) == Some("--plan") {
+        // developer aid: size of the space per subject, no subject code is run on mutated bytes
+        let thorough = args.get(2).map(|s| s.as_str()) == Some("thorough");
+        let bundle = build_bundle(0, true).expect("bundle");
+        let mut total = 0;
+        for def in subjects(thorough) {
+            let valid = &bundle[&def.name];
+            let lay = layout(&def, valid).expect("layout");
+            let bs = batches(&def, valid, &lay, thorough, 0);
+            let n: usize = bs.iter().map(|b| b.muts.len()).sum();
+            total += n;
+            println!("{:16} {:6} bytes {:5} batches {:7} mutations", def.name, valid.len(), bs.len(), n);
+        }
+        println!("total {total}");
+        return;
+    }
+    let mut cx = Ctx::from_args("C16", Level::FaultEnumeration);
+    vcore::pin_global_rayon(1);
+    let thorough = cx.tier.is_thorough();
+    let seed = cx.seed;
+    cx.set_rule(
+        "valid encodings {proof of 2 std-lib relations (one over an architecture with every chip \
+         but base64 enabled) and of 2 Fam circuits; MidnightVK (Processed, RawBytes) of both \
+         relations; bare plonk VerifyingKey (both formats, 2 circuits); ParamsVerifierKZG; \
+         ZkStdLibArch; ZkirRelation as bincode (2 programs) and as JSON; reported only: MidnightPK, \
+         ParamsKZG} x {every truncation length; every byte of the header region (first 64 bytes, \
+         128 in the thorough tier, plus every labelled version / flag / size / count / length-prefix / \
+         tag / parameter byte) x all 256 values; every G1/G2 element <- off-curve, non-subgroup, \
+         coordinate >= p, wrong flags, all-FF, all-00, identity, other valid point; every proof \
+         scalar <- s+r, r, all-FF, s+1; commitment count +-1 / 0 / 2^32-1 with and without matching \
+         bodies; bit flips (all bits of small objects in the thorough tier, element edges + seeded \
+         otherwise); seeded splices; appended bytes; read in the other checked format; bincode length \
+         prefixes and integer parameters <- {0, 1, 250, 2^16, 2^31, 2^32, 2^32+5, 2^62, 2^63, 2^64-1, \
+         u128}; one-instruction IR programs for every operation x type parameter x arities 0..=4 as \
+         bincode and JSON; broken JSON documents; seeded random byte / token strings}. Every key \
+         that decodes verifies (verify and batch_verify) a valid proof of its own circuit and one of \
+         another circuit; every mutated proof is verified under its own key and under the key of \
+         another circuit. The quick tier takes the subset named in coverage.subjects. A case is \
+         non-trivial when the mutated bytes differ from the valid encoding.",
+    );
+    cx.assume("a child process under RLIMIT_AS = 4 GiB and a per-mutation wall cap stands for 'terminates without exhausting memory'; an allocation the limit refuses aborts the child and is charged to the mutation");
+    cx.assume("RawBytesUnchecked reads of foreign bytes are out of scope (documented as trusted-input only)");
+    cx.assume("RawBytes accepts on-curve points outside the prime-order subgroup by documented design (curve check only); they are exercised and must not crash anything downstream");
+
+    // --- subjects
+    let bundle = match vcore::catch(|| build_bundle(seed, true)) {
+        Ok(Ok(b)) => b,
+        Ok(Err(e)) => {
+            cx.machinery_error(format!("cannot build the valid objects: {e}"));
+            cx.finish()
+        }
+        Err(p) => {
+            cx.machinery_error(format!("panic while building the valid objects: {p}"));
+            cx.finish()
+        }
+    };
+    let bundle_path = std::env::temp_dir().join(format!("vc-c16-bundle-{}.bin", std::process::id()));
+    if let Err(e) = std::fs::write(&bundle_path, bundle_write(&bundle)) {
+        cx.machinery_error(format!("cannot write the bundle: {e}"));
+        cx.finish()
+    }
+    let sb = Sandbox {
+        exe: std::env::current_exe().expect("current_exe"),
+        bundle: bundle_path.clone(),
+        seed,
+        tier: cx.tier.name(),
+    };
+    let cap = Duration::from_secs(if thorough { 60 } else { 20 });
+
+    // --- sandbox self-test: the parent must tell ok / panic / allocation failure / abort / hang apart
+    match sb.run("selftest", 0, 6, Duration::from_secs(3), 1, false) {
+        Ok((r, spawned)) => {
+            let got: Vec<String> = r
+                .iter()
+                .map(|x| match x {
+                    MutRes::Done { toks, .. } => toks.first().map(|t| t.split(':').next().unwrap_or("").to_string()).unwrap_or_default(),
+                    MutRes::Crash { kind, .. } => kind.split('(').next().unwrap_or("").to_string(),
+                })
+                .collect();
+            let want = ["decode=ok", "decode=panic", "alloc", "abort", "timeout", "decode=err"];
+            cx.require(got == want, &format!("sandbox self-test: expected {want:?}, got {got:?}"));
+            cx.require(spawned == 4, "sandbox self-test: three crashes need four children");
+            cx.extra("sandbox_selftest", json!({"outcomes": got, "children": spawned}));
+        }
+        Err(e) => cx.machinery_error(format!("sandbox self-test failed: {e}")),
+    }
+
+    let mut rts: Vec<SubjectRt> = vec![];
+    for def in subjects(thorough) {
+        let Some(valid) = bundle.get(&def.name).cloned() else {
+            cx.machinery_error(format!("subject {} missing from the bundle", def.name));
+            continue;
+        };
+        let lay = match layout(&def, &valid) {
+            Ok(l) => l,
+            Err(e) => {
+                cx.machinery_error(format!("layout of {}: {e}", def.name));
+                continue;
+            }
+        };
+        let covered: usize = lay.iter().map(|f| f.len).sum();
+        cx.require(covered == valid.len(), &format!("layout of {} covers {covered} of {} bytes", def.name, valid.len()));
+        let batches = batches(&def, &valid, &lay, thorough, seed);
+        rts.push(SubjectRt { def, valid, batches });
+    }
+    let table: Vec<_> = rts
+        .iter()
+        .map(|r| {
+            json!({
+                "subject": r.def.name,
+                "object": r.def.object(),
+                "entry": r.def.entry(),
+                "bytes": r.valid.len(),
+                "batches": r.batches.len(),
+                "mutations": r.batches.iter().map(|b| b.muts.len()).sum::<usize>(),
+                "byte_sweeps": r.batches.iter().filter(|b| b.sweep.is_some()).count(),
+                "reported_only": r.def.reported_only,
+                "profile": format!("{:?}", r.def.profile),
+            })
+        })
+        .collect();
+    cx.extra("subjects", json!(table));
+
+    let shared = Mutex::new(Shared::default());
+    // one pool of cases over all subjects (cheap subjects first), so that the long batches of the
+    // wide-architecture key overlap with everything else; those are also split over 8 children
+    let mut cases: Vec<(String, (usize, usize))> = vec![];
+    for (si, rt) in rts.iter().enumerate() {
+        for (bi, b) in rt.batches.iter().enumerate() {
+            cases.push((format!("{}/{}", rt.def.name, b.label), (si, bi)));
+        }
+    }
+    cx.run_cases("mutations", &cases, |(si, bi)| {
+        let rt = &rts[*si];
+        let batch = &rt.batches[*bi];
+        let case = format!("{}/{}", rt.def.name, batch.label);
+        let parts = if rt.def.large { 8 } else { 1 };
+        let t0 = std::time::Instant::now();
+        let (res, spawned) = match sb.run(&rt.def.name, *bi, batch.muts.len(), cap, parts, true) {
+            Ok(x) => x,
+            Err(e) => panic!("sandbox: {e}"),
+        };
+        if std::env::var_os("C16_TIMING").is_some() {
+            eprintln!("TIMING {:.2}s {case} ({} mutations, {spawned} children)", t0.elapsed().as_secs_f64(), batch.muts.len());
+        }
+        classify(rt, batch, &case, &res, spawned, &shared)
+    });
+    let _ = std::fs::remove_file(&bundle_path);
+
+    // --- anti-vacuity
+    if !cx.is_replay() {
+        for rt in &rts {
+            let n = cx.counter_value(&format!("identity-ok:{}", rt.def.name));
+            cx.require(n == 1, &format!("the valid encoding of {} must decode (and verify)", rt.def.name));
+        }
+        for c in [
+            "mut:truncate",
+            "mut:byte-substitution",
+            "mut:bit-flip",
+            "mut:cross-format-read",
+            "mut:point<-off-curve",
+            "mut:point<-on-curve-not-in-subgroup",
+            "mut:point<-x>=p",
+            "mut:point<-all-ff",
+            "mut:scalar<-noncanonical(s+r)",
+            "mut:length-prefix=2^32",
+            "mut:length-prefix=2^62",
+            "mut:parameter=2^32+5",
+            "mut:grammar",
+            "mut:json",
+            "mut:count-1,last-fixed-commitment-removed",
+            "mutated-input-decoded",
+            "mutated-input-rejected",
+            "children",
+        ] {
+            cx.require(cx.counter_value(c) > 0, &format!("counter {c} is zero: that part of the space was not exercised"));
+        }
+    }
+    let sh = shared.into_inner().unwrap();
+    let mut ro: BTreeMap<String, (u64, String)> = BTreeMap::new();
+    for ((k, _), (n, ex)) in sh.reported_only {
+        let e = ro.entry(k).or_insert((0, ex));
+        e.0 += n;
+    }
+    for (k, (n, ex)) in &ro {
+        cx.note(format!("reported only (local prover artefact, not a violation): {k} [{n} mutation(s)] e.g. {ex}"));
+    }
+    cx.extra(
+        "reported_only_findings",
+        json!(ro.iter().map(|(k, (n, ex))| json!({"key": k, "mutations": n, "example": ex})).collect::<Vec<_>>()),
+    );
+    let mut info: BTreeMap<String, u64> = BTreeMap::new();
+    for ((k, _), n) in sh.info {
+        *info.entry(k).or_default() += n;
+    }
+    cx.extra("observations", json!(info));
+    cx.finish()
+}
+
+/// In the bincode IR decoder every size comes from a length prefix: an allocation failure or a
+/// `capacity overflow` panic is the hostile-length defect however the bytes were produced.
+fn hostile_length(def: &SubjectDef, p: &Problem) -> bool {
+    matches!(def.kind, SKind::ZkirBin { .. })
+        && p.stage == "decode"
+        && (p.kind == "alloc" || (p.kind == "panic" && p.msg.starts_with("capacity overflow")))
+}
+
+#[derive(Clone)]
+struct Problem {
+    stage: String,
+    kind: String,
+    msg: String,
+    idx: usize,
+}
+
+fn classify(rt: &SubjectRt, batch: &Batch, case: &str, res: &[MutRes], spawned: u64, shared: &Mutex<Shared>) -> CaseOut {
+    let def = &rt.def;
+    let mut out = CaseOut::batch();
+    out.counter("children", spawned);
+    let is_proof = matches!(def.kind, SKind::Proof { .. } | SKind::FamProof { .. });
+    let mut problems: Vec<Problem> = vec![];
+    let mut info: Vec<String> = vec![];
+    for (i, (mu, r)) in batch.muts.iter().zip(res).enumerate() {
+        out.counter(&format!("mut:{}", family(&mu.class)), 1);
+        match r {
+            MutRes::Crash { kind, detail } => {
+                out.eval(&format!("{}:crash:{}", def.object(), kind.split('(').next().unwrap_or(kind)), true);
+                problems.push(Problem {
+                    stage: "decode".into(),
+                    kind: kind.split('(').next().unwrap_or(kind).to_string(),
+                    msg: format!("the child process died ({kind}) {detail}"),
+                    idx: i,
+                });
+            }
+            MutRes::Done { nontrivial, toks } => {
+                let mut class = String::new();
+                let mut decode_ok = false;
+                for t in toks {
+                    let Some((name, val)) = t.split_once('=') else { continue };
+                    if name == "harness" {
+                        panic!("the child's own code panicked on {case} mutation {i}: {val}");
+                    }
+                    if name == "decode" || name == "verify" {
+                        if !class.is_empty() {
+                            class.push('/');
+                        }
+                        class.push_str(&format!("{name}-{}", val.split(':').next().unwrap_or(val)));
+                    }
+                    if name == "decode" && val == "ok" {
+                        decode_ok = true;
+                    }
+                    if let Some(msg) = val.strip_prefix("panic:") {
+                        if let Some(what) = name.strip_prefix("info:") {
+                            info.push(format!("{}: {what} panics on a decoded {} ({})", mu.field, def.object(), vcore::panic_site(msg)));
+                        } else {
+                            problems.push(Problem { stage: name.into(), kind: "panic".into(), msg: msg.into(), idx: i });
+                        }
+                        continue;
+                    }
+                    match (name, val) {
+                        ("canon", v) if v.starts_with("mismatch") || v == "write-failed" => {
+                            if *nontrivial || matches!(mu.mu, Mu::Identity) {
+                                problems.push(Problem { stage: "decode".into(), kind: "accepts-non-canonical".into(), msg: v.into(), idx: i });
+                            }
+                        }
+                        ("accept", "1") => {
+                            if is_proof {
+                                problems.push(Problem { stage: "decode".into(), kind: "mutated-proof-accepted".into(), msg: "a proof that differs from the honest one was accepted".into(), idx: i });
+                            } else {
+                                info.push(format!("{}: a {} with this field mutated still accepts the honest proof", mu.field, def.object()));
+                            }
+                        }
+                        ("accept-other", "1") => {
+                            problems.push(Problem { stage: "verify-under-other-key".into(), kind: "accepted-under-the-key-of-another-circuit".into(), msg: "accepted".into(), idx: i });
+                        }
+                        ("noncanon", "1") => info.push(format!("{}: a non-minimal bincode integer encoding is accepted (not a field / point encoding)", def.object())),
+                        ("roundtrip", "unstable") => problems.push(Problem { stage: "write_relation".into(), kind: "unstable-roundtrip".into(), msg: "decode(encode(decode(x))) differs".into(), idx: i }),
+                        ("utf8", "no") => class = "not-utf8(unreachable-through-&str-API)".into(),
+                        _ => {}
+                    }
+                }
+                // the same failure through the second entry point is the same defect: keep
+                // `batch_verify` problems only where `verify` has none of that kind
+                let mine: Vec<Problem> = problems.iter().filter(|p| p.idx == i).cloned().collect();
+                problems.retain(|p| {
+                    !(p.idx == i
+                        && p.stage.starts_with("batch_verify")
+                        && mine.iter().any(|q| q.kind == p.kind && q.stage == p.stage.replacen("batch_verify", "verify", 1)))
+                });
+                if toks.iter().any(|t| t == "exact-reread=err") {
+                    info.push("ZkirRelation::read_relation cannot read back exactly what write_relation wrote (it decodes `(Program, usize)` and so needs one more varint after the program)".into());
+                }
+                if class.is_empty() {
+                    class = "no-stage".into();
+                }
+                // a checked format must not accept an invalid point encoding at all
+                if decode_ok && !is_proof && *nontrivial {
+                    if let Some(c) = mu.class.strip_prefix("point<-") {
+                        let compressed = def.fmt() == Some(Fmt::P);
+                        let invalid = matches!(
+                            c,
+                            "off-curve" | "x>=p" | "y>=p" | "coordinate>=p" | "compression-flag-cleared" | "compression-flag-set"
+                                | "compression-flag-toggled" | "infinity-flag-with-body" | "all-ff" | "all-00"
+                        ) || (compressed && c == "on-curve-not-in-subgroup");
+                        if invalid {
+                            problems.push(Problem { stage: "decode".into(), kind: "accepts-invalid-point".into(), msg: format!("the {} format accepted the crafted encoding `{c}`", def.fmt().map(|f| f.name()).unwrap_or("")), idx: i });
+                        } else if c == "on-curve-not-in-subgroup" {
+                            info.push(format!("{}: RawBytes accepts an on-curve point outside the prime-order subgroup (documented: curve check only)", def.object()));
+                        }
+                    }
+                }
+                let class = format!("{}:{class}", def.object());
+                out.eval(&class, *nontrivial);
+                if *nontrivial {
+                    out.counter(if decode_ok { "mutated-input-decoded" } else { "mutated-input-rejected" }, 1);
+                }
+                if matches!(mu.mu, Mu::Identity) {
+                    let good = toks.iter().all(|t| {
+                        let (n, v) = t.split_once('=').unwrap_or((t, ""));
+                        match n {
+                            "decode" | "verify" | "batch_verify" | "used_chips" | "write_relation" | "reread" | "info:nb_points" => v == "ok",
+                            "canon" => v == "ok",
+                            _ => true,
+                        }
+                    }) && decode_ok;
+                    if good {
+                        out.counter(&format!("identity-ok:{}", def.name), 1);
+                    }
+                    out.sample = Some(json!({"mutation": "identity", "outcome": toks}));
+                }
+            }
+        }
+    }
+
+    // --- problems -> finding keys
+    let describe = |i: usize| -> serde_json::Value {
+        let mu = &batch.muts[i];
+        let bytes = apply(&rt.valid, &mu.mu);
+        json!({
+            "subject": def.name,
+            "batch": batch.label,
+            "mutation_index": i,
+            "mutation": format!("{:?}", mu.mu).chars().take(200).collect::<String>(),
+            "field": mu.field,
+            "class": mu.class,
+            "format": def.fmt().map(|f| f.name()),
+            "mutated_bytes": hex_head(&bytes),
+            "valid_length": rt.valid.len(),
+        })
+    };
+    // (stage, kind, desc) -> (count, first problem)
+    let mut keyed: BTreeMap<(String, String, String), (u64, Problem)> = BTreeMap::new();
+    if let Some(off) = batch.sweep {
+        let orig = rt.valid[off];
+        let mut sets: BTreeMap<(String, String), (BTreeSet<u8>, Problem)> = BTreeMap::new();
+        for p in &problems {
+            let Mu::Byte { val, .. } = batch.muts[p.idx].mu else { continue };
+            sets.entry((p.stage.clone(), p.kind.clone())).or_insert_with(|| (BTreeSet::new(), p.clone())).0.insert(val);
+        }
+        for ((stage, kind), (vals, first)) in sets {
+            let field = &batch.muts[first.idx].field;
+            let desc = if hostile_length(def, &first) {
+                "length-prefix".to_string()
+            } else if relative_field(field) {
+                // counts: relative to the valid value, and without the byte index
+                let base = field.split("[byte").next().unwrap_or(field);
+                let sd = set_desc(&vals, orig);
+                if sd.ends_with("orig") {
+                    format!("{base}{sd}")
+                } else {
+                    format!("{field}{sd}")
+                }
+            } else {
+                format!("{field}{}", literal_desc(&vals))
+            };
+            let e = keyed.entry((stage, kind, desc)).or_insert_with(|| (0, first.clone()));
+            e.0 += vals.len() as u64;
+        }
+    } else {
+        for p in &problems {
+            let mu = &batch.muts[p.idx];
+            let site = if p.kind == "panic" { vcore::panic_site(&p.msg) } else { String::new() };
+            let desc = if hostile_length(def, p) { "length-prefix".to_string() } else { mutation_desc(mu, &site) };
+            keyed.entry((p.stage.clone(), p.kind.clone(), desc)).or_insert_with(|| (0, p.clone())).0 += 1;
+        }
+    }
+    for ((stage, kind, desc), (n, first)) in keyed {
+        let key = finding_key(def, &stage, &desc, &kind);
+        let site = if kind == "panic" { format!(" [{}]", vcore::panic_site(&first.msg)) } else { String::new() };
+        let what = format!(
+            "{} of a mutated {} ({}; {} mutation(s) in this batch, first: #{} {}): {}{}",
+            if stage == "decode" { def.entry().to_string() } else { format!("{stage} with a decoded {}", def.object()) },
+            def.object(),
+            desc,
+            n,
+            first.idx,
+            batch.muts[first.idx].class,
+            first.msg,
+            site
+        );
+        if def.reported_only {
+            out.count(&format!("reported-only:{kind}"), n);
+            shared.lock().unwrap().reported_only.insert((key, case.to_string()), (n, what.chars().take(300).collect()));
+        } else {
+            let mut d = describe(first.idx);
+            d["mutations_in_batch"] = json!(n);
+            out.viol(Viol::new(key, what, d));
+        }
+    }
+    if !info.is_empty() {
+        let mut g = shared.lock().unwrap();
+        let mut per: BTreeMap<String, u64> = BTreeMap::new();
+        for i in info {
+            *per.entry(i).or_default() += 1;
+        }
+        for (k, n) in per {
+            g.info.insert((k, case.to_string()), n);
+        }
+    }
+    out
 }
